@@ -19,8 +19,8 @@ pub struct PlanEntry {
 pub fn plan(prop: &str) -> Vec<PlanEntry> {
     let p = |family, weight| PlanEntry { family, weight };
     match prop {
-        "C01" => vec![p("rc-mixed", 5), p("rc-weak", 2), p("rc-bulk", 1), p("dir-t4", 1), p("dir-t3", 2), p("dir-t1", 1), p("dir-t7", 1), p("dir-t8", 1), p("chain-weak", 1), p("client", 1)],
-        "C02" => vec![p("rc-mixed", 3), p("rc-weak", 1), p("dir-t1", 3), p("dir-t2", 3), p("dir-t3", 1), p("dir-t5", 1), p("dir-t8", 2), p("dir-t9", 1), p("dir-t10", 1), p("dir-t14", 1), p("client", 2)],
+        "C01" => vec![p("rc-mixed", 5), p("rc-weak", 2), p("rc-bulk", 1), p("dir-t4", 1), p("dir-t3", 2), p("dir-t1", 1), p("dir-t7", 1), p("dir-t8", 1), p("chain-weak", 1), p("client", 1), p("dir-t16", 1)],
+        "C02" => vec![p("rc-mixed", 3), p("rc-weak", 1), p("dir-t1", 3), p("dir-t2", 3), p("dir-t3", 1), p("dir-t5", 1), p("dir-t8", 2), p("dir-t9", 1), p("dir-t10", 1), p("dir-t14", 1), p("client", 2), p("dir-t16", 1)],
         "C03" => vec![p("rc-weak", 4), p("rc-mixed", 1), p("dir-t4", 2), p("dir-t7", 3), p("dir-t8", 1), p("dir-t10", 1), p("dir-t14", 1)],
         "C04" => vec![p("rc-mixed", 3), p("rc-bulk", 2), p("rc-weak", 2), p("tls", 1), p("dir-t6", 1), p("dir-t7", 1), p("dir-t4", 1), p("dir-t3", 1), p("client", 1)],
         "C05" => vec![p("rc-weak", 8), p("dir-t3", 8), p("rc-mixed", 2), p("dir-t7", 2), p("dir-t2", 3), p("dir-t5", 3), p("dir-t14", 2), p("chain-weak", 1)],
